@@ -610,3 +610,95 @@ def es_2drows(ctx):
                'transform_to_output' % fn, f=f, key='sd-' + fn,
                why='%s does not compute the standard deviations through '
                    'transform_to_output' % fn)
+
+
+# ---------------------------------------------------------------- CARRIER-SYNC
+from ..rotmodel import RotHooks          # noqa: E402
+
+
+class _SH(RotHooks):
+    def __init__(self):
+        self.traj_store = None
+
+    def call(self, ev, q, node, args, kwargs, env):
+        r = RotHooks.call(self, ev, q, node, args, kwargs, env)
+        if r is not NotImplemented:
+            return r
+        if q == 'builtins.len':
+            v = args[0]
+            if isinstance(v, Opaque) and v.tag == 'trajectory':
+                return ev.A.sym('n_data')
+        return NotImplemented
+
+    def attr(self, ev, base, a, node):
+        if isinstance(base, Opaque) and base.tag == 'trajectory':
+            return Opaque('trajectory.' + a)
+        return RotHooks.attr(self, ev, base, a, node)
+
+    def store(self, ev, base, idx, v, node):
+        if isinstance(base, Opaque) and base.tag.startswith('trajectory.'):
+            self.traj_store = (idx, v)
+
+
+def carrier_sync(ctx):
+    ctx.rule('CARRIER-SYNC', 'constructor and set_pva leave every carrier holding the SAME state: '
+             'buffer rows == the trajectory row just written (position, velocity, attitude '
+             'matrix of its Euler angles), in both altitude modes')
+    repo = ctx.repo
+    c, f_int, call = _integ(ctx)
+    names = {role: norm_text(call.args[i]).split('.')[-1]
+             for role, i in (('lla', 1), ('vel', 2), ('mat', 3))}
+    tcols = repo.const('util.TRAJECTORY_COLS')
+    groups = {'lla': repo.const('util.LLA_COLS'), 'vel': repo.const('util.VEL_COLS')}
+    rph_c = repo.const('util.RPH_COLS')
+    mfr = repo.function('transform.mat_from_rph')
+    for wa in (True, False):
+        for mname in ('__init__', 'set_pva'):
+            m = c.methods[mname]
+            h = _SH()
+            ev = SymEval(repo, Alg(), hooks=h)
+            A = ev.A
+            pva = Rec({k: A.sym(k) for k in tcols}, 'series')
+            o = Obj(c)
+            rows = {}
+            try:
+                if mname == '__init__':
+                    ev.call_function(m, [pva, wa], {}, o)
+                    traj = o.attrs.get('trajectory')
+                    for role, nm in names.items():
+                        arr = o.attrs.get(nm)
+                        if isinstance(arr, SArray):
+                            rows[role] = {k[1:]: v for k, v in arr.entries.items() if k[0] == 0}
+                else:
+                    o.attrs['with_altitude'] = wa
+                    bufs = {}
+                    for role, nm in names.items():
+                        bufs[role] = PArr(nm, (3, 3) if role == 'mat' else (3,))
+                        o.attrs[nm] = bufs[role]
+                    o.attrs['trajectory'] = Opaque('trajectory')
+                    ev.call_function(m, [pva], {}, o)
+                    traj = h.traj_store[1] if h.traj_store else None
+                    for role in names:
+                        rows[role] = {k[1:]: v for k, v in bufs[role].stores.items()}
+            except Unsupported as e:
+                raise AnalysisError('Integrator.%s not analysable: %s' % (mname, e))
+            ctx.need(isinstance(traj, Rec), 'Integrator.%s: trajectory row not recognised' % mname)
+            for role, cols in groups.items():
+                ok = all((i,) in rows.get(role, {}) and
+                         A.eq(rows[role][(i,)], ev.rat(traj.cols[cname]))
+                         for i, cname in enumerate(cols))
+                ctx.ob('CARRIER-SYNC', ok, None, '%s (with_altitude=%s): %s buffer row == %s of the '
+                       'trajectory row' % (mname, wa, names[role], cols), f=m,
+                       key='%s-%s-%s' % (mname, role, wa),
+                       why='%s (with_altitude=%s) stores one state in self.%s and a different one in '
+                           'self.trajectory: the kernel continues from values that get_pva() does '
+                           'not show' % (mname, wa, names[role]))
+            vec = SArray((3,), {(i,): ev.rat(traj.cols[k]) for i, k in enumerate(rph_c)})
+            want = SymEval(repo, A, hooks=_SH()).call_function(mfr, [vec])
+            ok = all((i, j) in rows.get('mat', {}) and A.eq(rows['mat'][(i, j)], want.get((i, j)))
+                     for i in range(3) for j in range(3))
+            ctx.ob('CARRIER-SYNC', ok, None, '%s (with_altitude=%s): %s row == mat_from_rph of the '
+                   'trajectory row' % (mname, wa, names['mat']), f=m,
+                   key='%s-mat-%s' % (mname, wa),
+                   why='%s (with_altitude=%s): attitude matrix buffer does not match the Euler '
+                       'angles stored in the trajectory' % (mname, wa))
